@@ -486,6 +486,12 @@ func C14Scenarios(tier string) []*Scenario {
 			}
 		}
 	}
+	for _, site := range []string{"extend", "mapfunc", "default"} {
+		for _, kind := range c14DeclKinds {
+			n++
+			out = append(out, buildC14Decl(fmt.Sprintf("%05d", n), site, kind))
+		}
+	}
 	for _, site := range []string{"extend", "extend-regex", "mapfunc", "default", "structmethod"} {
 		for _, roles := range orderedSelections([]string{"SA", "SB", "CX", "CV"}, 3) {
 			for _, res := range sequences(c14Results, 2) {
@@ -498,4 +504,121 @@ func C14Scenarios(tier string) []*Scenario {
 		}
 	}
 	return out
+}
+
+// ---- what the name given to extend / map|FUNC / default refers to ----
+
+var c14DeclKinds = []string{"func", "generic", "generic-result", "unexported-local", "unexported-other-pkg", "exported-other-pkg",
+	"var-nonfunc", "var-func", "const", "type-func", "type-alias-func", "missing", "missing-pkg", "method-value-var"}
+
+func buildC14Decl(id, site, kind string) *Scenario {
+	sc := &Scenario{ID: "HD" + id, PropGen: "C14", PropVal: "C14", Test: "Convert", Funcs: map[string]string{},
+		Desc: map[string]any{"class": "site=" + site + " decl=" + kind}}
+	conv := &model.Converter{OutPkg: "conv/generated", LitPkg: "conv"}
+	sc.Conv = conv
+	sd := &space.Decl{Pkg: "in", Name: "S" + id, Under: space.St(f("A", tInt))}
+	td := &space.Decl{Pkg: "out", Name: "T" + id, Under: space.St(f("A", tInt))}
+	sc.Decls = []*space.Decl{sd, td}
+	sT, tT := space.N(sd), space.N(td)
+	fs, ft := sT, tT
+	ret := func(pkg string) string { return tT.Go(pkg) + "{A: 41}" }
+	if site == "mapfunc" {
+		fs, ft = tInt, tInt
+		ret = func(string) string { return "41" }
+	}
+	fn := "Fd" + id
+	ref := fn // what is written in the setting
+	expr := "conv." + fn
+	reject, unspec := "", ""
+	sig := func(pkg string) string { return fmt.Sprintf("(s %s) %s", fs.Go(pkg), ft.Go(pkg)) }
+	switch kind {
+	case "func":
+		sc.FuncsSrc = fmt.Sprintf("func %s%s { return %s }\n", fn, sig("conv"), ret("conv"))
+	case "generic":
+		sc.FuncsSrc = fmt.Sprintf("func %s[X any](s X) %s { return %s }\n", fn, ft.Go("conv"), ret("conv"))
+		expr = fmt.Sprintf("conv.%s[%s]", fn, fs.Go("main"))
+		if site == "extend" {
+			reject = "generic functions cannot be used for extend"
+		}
+	case "generic-result":
+		// the type parameter only occurs in the result: it cannot be inferred at the call site
+		sc.FuncsSrc = fmt.Sprintf("func %s[X any](s %s) X { var x X; return x }\n", fn, fs.Go("conv"))
+		reject = "generic function whose type parameter cannot be inferred"
+		if site != "extend" {
+			// the documentation allows generic functions here; one that cannot be instantiated from the call is
+			// beyond the property's text, any diagnostic is fine but generated code must compile
+			reject, unspec = "", "generic function whose type parameter is not inferable"
+			sc.NoRuntime = true
+		}
+	case "unexported-local":
+		fn = "fd" + id
+		ref, expr = fn, ""
+		sc.FuncsSrc = fmt.Sprintf("func %s%s { return %s }\nvar _ = %s\n", fn, sig("conv"), ret("conv"), fn)
+		reject = "unexported function is not accessible from the output package"
+	case "unexported-other-pkg":
+		ref, expr = "vx/ext:fd"+id, ""
+		sc.Files = map[string]string{"ext/ext.go": fmt.Sprintf("package ext\n\nimport \"vx/in\"\nimport \"vx/out\"\n\nvar _ in.P\nvar _ out.P\n\nfunc fd%s%s { return %s }\nvar _ = fd%s\n", id, sig("ext"), ret("ext"), id)}
+		reject = "unexported function of another package"
+	case "exported-other-pkg":
+		ref, expr = "vx/ext:"+fn, "ext."+fn
+		sc.Files = map[string]string{"ext/ext.go": fmt.Sprintf("package ext\n\nimport \"vx/in\"\nimport \"vx/out\"\n\nvar _ in.P\nvar _ out.P\n\nfunc %s%s { return %s }\n", fn, sig("ext"), ret("ext"))}
+		sc.Imports = append(sc.Imports, "ext")
+		sc.FuncsSrc = "var _ = ext." + fn + "\n"
+	case "var-nonfunc":
+		sc.FuncsSrc = fmt.Sprintf("var %s = 3\n", fn)
+		expr, reject = "", "variable is not a function"
+	case "var-func":
+		sc.FuncsSrc = fmt.Sprintf("var %s = func%s { return %s }\n", fn, sig("conv"), ret("conv"))
+		unspec = "function-typed variable"
+	case "method-value-var":
+		sc.FuncsSrc = fmt.Sprintf("type hold%s struct{}\n\nfunc (hold%s) M%s { return %s }\n\nvar %s = hold%s{}.M\n", id, id, sig("conv"), ret("conv"), fn, id)
+		unspec = "function-typed variable (method value)"
+	case "const":
+		sc.FuncsSrc = fmt.Sprintf("const %s = 3\n", fn)
+		expr, reject = "", "constant is not a function"
+	case "type-func":
+		sc.FuncsSrc = fmt.Sprintf("type %s func%s\n", fn, sig("conv"))
+		expr, reject = "", "type is not a function"
+	case "type-alias-func":
+		sc.FuncsSrc = fmt.Sprintf("type %s = func%s\n", fn, sig("conv"))
+		expr, reject = "", "type alias is not a function"
+	case "missing":
+		expr, reject = "", "no such declaration"
+	case "missing-pkg":
+		ref, expr, reject = "vx/nonexistent:"+fn, "", "no such package"
+	}
+	cust := &model.Custom{Name: fn, Src: fs, Dst: ft, ArgsFmt: []string{"src"}}
+	if strings.HasPrefix(expr, "ext.") {
+		cust.Pkg = "ext"
+	}
+	top := &model.Method{Name: "Convert", Src: sT, Dst: tT, Fields: map[string]*model.FieldCfg{}}
+	var mlines []string
+	switch site {
+	case "extend":
+		sc.ConvLines = append(sc.ConvLines, "extend "+ref)
+		if reject == "" {
+			conv.Extends = append(conv.Extends, cust)
+		}
+	case "default":
+		mlines = append(mlines, "default "+ref)
+		top.Default = cust
+	case "mapfunc":
+		mlines = append(mlines, "map A A | "+ref)
+		top.Fields["A"] = &model.FieldCfg{Source: "A", Fn: cust}
+		top.NFieldSettings = 1
+	}
+	if expr != "" {
+		sc.Funcs[fn] = expr
+	}
+	if reject != "" {
+		sc.Forced, sc.ForcedReject = true, reject
+	}
+	sc.Unspec = unspec
+	conv.Methods = []*model.Method{top}
+	sc.Methods = []*ScMethod{{Name: "Convert", Params: "source " + sT.Go("conv"), Result: tT.Go("conv"), Lines: mlines, M: top}}
+	sc.Mode = "value,nomutate"
+	if site == "default" {
+		sc.Mode = "value,nilkeeps"
+	}
+	return sc
 }
